@@ -498,36 +498,44 @@ pub mod macros_support {
     pub use std::future::{poll_fn, Future};
     pub use std::pin::Pin;
     pub use std::task::Poll;
-    pub enum Out2<A, B> { A(A), B(B) }
-    pub enum Out3<A, B, C> { A(A), B(B), C(C) }
+    pub enum Out2<A, B> { A(A), B(B), Disabled }
+    pub enum Out3<A, B, C> { A(A), B(B), C(C), Disabled }
 }
 
-/// Model of `tokio::select!` with two or three branches, without preconditions / else: all futures are created, polled
-/// starting from a nondeterministically chosen branch (`biased;`: from the first), the first ready one whose pattern
-/// matches wins (a ready branch whose pattern does not match is disabled, as in tokio), and all futures are dropped
-/// before the winning handler runs.  Handlers may be blocks or expressions.
+/// Model of `tokio::select!` with two or three branches, optional preconditions (`, if cond`) and an optional `else` branch:
+/// the preconditions are evaluated first (a false one disables its branch), then all futures are created, polled starting
+/// from a nondeterministically chosen branch (`biased;`: from the first), the first ready one whose pattern matches wins
+/// (a ready branch whose pattern does not match is disabled, as in tokio), and all futures are dropped before the winning
+/// handler runs; when every branch is disabled the `else` handler runs (without one: panic, as in tokio).
+/// Handlers may be blocks or expressions.
 #[macro_export]
 macro_rules! select {
-    // ---- normalisation: one branch at a time into `{ pat = fut => { handler } }` groups
-    (@norm ($($start:tt)*) [$($acc:tt)*] $p:pat = $f:expr => $h:block , $($rest:tt)*) => { $crate::select!(@norm ($($start)*) [$($acc)* { $p = $f => $h }] $($rest)*) };
-    (@norm ($($start:tt)*) [$($acc:tt)*] $p:pat = $f:expr => $h:block $($rest:tt)*) => { $crate::select!(@norm ($($start)*) [$($acc)* { $p = $f => $h }] $($rest)*) };
-    (@norm ($($start:tt)*) [$($acc:tt)*] $p:pat = $f:expr => $h:expr , $($rest:tt)*) => { $crate::select!(@norm ($($start)*) [$($acc)* { $p = $f => { $h } }] $($rest)*) };
-    (@norm ($($start:tt)*) [$($acc:tt)*] $p:pat = $f:expr => $h:expr) => { $crate::select!(@norm ($($start)*) [$($acc)* { $p = $f => { $h } }]) };
-    (@norm (biased) [{ $p0:pat = $f0:expr => $h0:block } { $p1:pat = $f1:expr => $h1:block }]) => { $crate::select!(@go2 (0u32) ; $p0 = $f0 => $h0 ; $p1 = $f1 => $h1) };
-    (@norm (random) [{ $p0:pat = $f0:expr => $h0:block } { $p1:pat = $f1:expr => $h1:block }]) => { $crate::select!(@go2 ($crate::verif::choose(2)) ; $p0 = $f0 => $h0 ; $p1 = $f1 => $h1) };
-    (@norm (biased) [{ $p0:pat = $f0:expr => $h0:block } { $p1:pat = $f1:expr => $h1:block } { $p2:pat = $f2:expr => $h2:block }]) => { $crate::select!(@go3 (0u32) ; $p0 = $f0 => $h0 ; $p1 = $f1 => $h1 ; $p2 = $f2 => $h2) };
-    (@norm (random) [{ $p0:pat = $f0:expr => $h0:block } { $p1:pat = $f1:expr => $h1:block } { $p2:pat = $f2:expr => $h2:block }]) => { $crate::select!(@go3 ($crate::verif::choose(3)) ; $p0 = $f0 => $h0 ; $p1 = $f1 => $h1 ; $p2 = $f2 => $h2) };
+    // ---- normalisation: one branch at a time into `{ pat = fut , if cond => { handler } }` groups; else handler kept aside
+    (@norm $s:tt $e:tt [$($acc:tt)*] else => $h:block $(,)?) => { $crate::select!(@norm $s ($h) [$($acc)*]) };
+    (@norm $s:tt $e:tt [$($acc:tt)*] else => $h:expr $(,)?) => { $crate::select!(@norm $s ({ $h }) [$($acc)*]) };
+    (@norm $s:tt $e:tt [$($acc:tt)*] $p:pat = $f:expr , if $c:expr => $h:block , $($rest:tt)*) => { $crate::select!(@norm $s $e [$($acc)* { $p = $f , if $c => $h }] $($rest)*) };
+    (@norm $s:tt $e:tt [$($acc:tt)*] $p:pat = $f:expr , if $c:expr => $h:block $($rest:tt)*) => { $crate::select!(@norm $s $e [$($acc)* { $p = $f , if $c => $h }] $($rest)*) };
+    (@norm $s:tt $e:tt [$($acc:tt)*] $p:pat = $f:expr , if $c:expr => $h:expr , $($rest:tt)*) => { $crate::select!(@norm $s $e [$($acc)* { $p = $f , if $c => { $h } }] $($rest)*) };
+    (@norm $s:tt $e:tt [$($acc:tt)*] $p:pat = $f:expr , if $c:expr => $h:expr) => { $crate::select!(@norm $s $e [$($acc)* { $p = $f , if $c => { $h } }]) };
+    (@norm $s:tt $e:tt [$($acc:tt)*] $p:pat = $f:expr => $h:block , $($rest:tt)*) => { $crate::select!(@norm $s $e [$($acc)* { $p = $f , if true => $h }] $($rest)*) };
+    (@norm $s:tt $e:tt [$($acc:tt)*] $p:pat = $f:expr => $h:block $($rest:tt)*) => { $crate::select!(@norm $s $e [$($acc)* { $p = $f , if true => $h }] $($rest)*) };
+    (@norm $s:tt $e:tt [$($acc:tt)*] $p:pat = $f:expr => $h:expr , $($rest:tt)*) => { $crate::select!(@norm $s $e [$($acc)* { $p = $f , if true => { $h } }] $($rest)*) };
+    (@norm $s:tt $e:tt [$($acc:tt)*] $p:pat = $f:expr => $h:expr) => { $crate::select!(@norm $s $e [$($acc)* { $p = $f , if true => { $h } }]) };
+    (@norm (biased) ($e:block) [{ $p0:pat = $f0:expr , if $c0:expr => $h0:block } { $p1:pat = $f1:expr , if $c1:expr => $h1:block }]) => { $crate::select!(@go2 (0u32) $e ; $p0 = $f0 , $c0 => $h0 ; $p1 = $f1 , $c1 => $h1) };
+    (@norm (random) ($e:block) [{ $p0:pat = $f0:expr , if $c0:expr => $h0:block } { $p1:pat = $f1:expr , if $c1:expr => $h1:block }]) => { $crate::select!(@go2 ($crate::verif::choose(2)) $e ; $p0 = $f0 , $c0 => $h0 ; $p1 = $f1 , $c1 => $h1) };
+    (@norm (biased) ($e:block) [{ $p0:pat = $f0:expr , if $c0:expr => $h0:block } { $p1:pat = $f1:expr , if $c1:expr => $h1:block } { $p2:pat = $f2:expr , if $c2:expr => $h2:block }]) => { $crate::select!(@go3 (0u32) $e ; $p0 = $f0 , $c0 => $h0 ; $p1 = $f1 , $c1 => $h1 ; $p2 = $f2 , $c2 => $h2) };
+    (@norm (random) ($e:block) [{ $p0:pat = $f0:expr , if $c0:expr => $h0:block } { $p1:pat = $f1:expr , if $c1:expr => $h1:block } { $p2:pat = $f2:expr , if $c2:expr => $h2:block }]) => { $crate::select!(@go3 ($crate::verif::choose(3)) $e ; $p0 = $f0 , $c0 => $h0 ; $p1 = $f1 , $c1 => $h1 ; $p2 = $f2 , $c2 => $h2) };
     // ---- two branches
-    ( @go2 ($start:expr) ; $p0:pat = $f0:expr => $h0:block ; $p1:pat = $f1:expr => $h1:block ) => {{
+    ( @go2 ($start:expr) $e:block ; $p0:pat = $f0:expr , $c0:expr => $h0:block ; $p1:pat = $f1:expr , $c1:expr => $h1:block ) => {{
         let __out = {
+            let mut __dis0 = !($c0);
+            let mut __dis1 = !($c1);
             let mut __f0 = $f0;
             let mut __f1 = $f1;
             // SAFETY: the futures are not moved after being pinned; they are dropped in place.
             let mut __f0 = unsafe { $crate::macros_support::Pin::new_unchecked(&mut __f0) };
             let mut __f1 = unsafe { $crate::macros_support::Pin::new_unchecked(&mut __f1) };
             let __start: u32 = $start;
-            let mut __dis0 = false;
-            let mut __dis1 = false;
             $crate::macros_support::poll_fn(|cx| {
                 use $crate::macros_support::{Future, Out2, Poll};
                 for __k in 0..2u32 {
@@ -545,20 +553,24 @@ macro_rules! select {
                         }
                     }
                 }
-                if __dis0 && __dis1 { panic!("all branches are disabled and there is no else branch"); }
+                if __dis0 && __dis1 { return Poll::Ready(Out2::Disabled); }
                 Poll::Pending
             }).await
         };
-        #[allow(unreachable_patterns)]
+        #[allow(unreachable_patterns, unreachable_code)]
         match __out {
             $crate::macros_support::Out2::A($p0) => $h0,
             $crate::macros_support::Out2::B($p1) => $h1,
+            $crate::macros_support::Out2::Disabled => $e,
             _ => unreachable!(),
         }
     }};
     // ---- three branches
-    ( @go3 ($start:expr) ; $p0:pat = $f0:expr => $h0:block ; $p1:pat = $f1:expr => $h1:block ; $p2:pat = $f2:expr => $h2:block ) => {{
+    ( @go3 ($start:expr) $e:block ; $p0:pat = $f0:expr , $c0:expr => $h0:block ; $p1:pat = $f1:expr , $c1:expr => $h1:block ; $p2:pat = $f2:expr , $c2:expr => $h2:block ) => {{
         let __out = {
+            let mut __dis0 = !($c0);
+            let mut __dis1 = !($c1);
+            let mut __dis2 = !($c2);
             let mut __f0 = $f0;
             let mut __f1 = $f1;
             let mut __f2 = $f2;
@@ -567,9 +579,6 @@ macro_rules! select {
             let mut __f1 = unsafe { $crate::macros_support::Pin::new_unchecked(&mut __f1) };
             let mut __f2 = unsafe { $crate::macros_support::Pin::new_unchecked(&mut __f2) };
             let __start: u32 = $start;
-            let mut __dis0 = false;
-            let mut __dis1 = false;
-            let mut __dis2 = false;
             $crate::macros_support::poll_fn(|cx| {
                 use $crate::macros_support::{Future, Out3, Poll};
                 for __k in 0..3u32 {
@@ -595,21 +604,22 @@ macro_rules! select {
                         }
                     }
                 }
-                if __dis0 && __dis1 && __dis2 { panic!("all branches are disabled and there is no else branch"); }
+                if __dis0 && __dis1 && __dis2 { return Poll::Ready(Out3::Disabled); }
                 Poll::Pending
             }).await
         };
-        #[allow(unreachable_patterns)]
+        #[allow(unreachable_patterns, unreachable_code)]
         match __out {
             $crate::macros_support::Out3::A($p0) => $h0,
             $crate::macros_support::Out3::B($p1) => $h1,
             $crate::macros_support::Out3::C($p2) => $h2,
+            $crate::macros_support::Out3::Disabled => $e,
             _ => unreachable!(),
         }
     }};
     // ---- entry points
-    ( biased; $($t:tt)* ) => { $crate::select!(@norm (biased) [] $($t)*) };
-    ( $($t:tt)* ) => { $crate::select!(@norm (random) [] $($t)*) };
+    ( biased; $($t:tt)* ) => { $crate::select!(@norm (biased) ({ panic!("all branches are disabled and there is no else branch") }) [] $($t)*) };
+    ( $($t:tt)* ) => { $crate::select!(@norm (random) ({ panic!("all branches are disabled and there is no else branch") }) [] $($t)*) };
 }
 
 /// `tokio::pin!`: pins a value on the stack.
